@@ -1,6 +1,9 @@
 import CollectionsC.Properties.C01Gen
 import CollectionsC.Model.Stack
 import CollectionsC.Generated.FuncsStack
+import CollectionsC.Properties.C05Gen
+import CollectionsC.Model.Queue
+import CollectionsC.Generated.FuncsQueue
 /-! # C09 — translation validation of the stack model
 
 `Generated/FuncsStack.lean` is re-translated from the current text of `src/cc_stack.c` on every build
@@ -13,8 +16,15 @@ This file proves that on every state satisfying `Stack.Inv` (for the constructor
 ledger) each translated function is **fault-free** and returns what the hand-written model function of
 `Model/Stack.lean` returns (status code, out-value, state via `ofStack`, ledger), using the array agreement
 theorems of `Properties/C01Gen.lean`.  Not translated: `destroy_cb`, `map`, `filter_mut`, `filter` and the
-iterator wrappers (they forward to array functions that are not translated: callbacks, iterators); the
-queue (`cc_queue.c`) forwards to `cc_deque.c`, see `Properties/C05Gen.lean`. -/
+iterator wrappers (they forward to array functions that are not translated: callbacks, iterators).
+
+The queue: `Generated/FuncsQueue.lean` is the translation of `src/cc_queue.c` (`struct cc_queue_s` with the wrapped
+deque object as field `d`; `CC_QueueConf` is the deque's configuration record) — `cc_queue_conf_init`,
+`cc_queue_new_conf`, `cc_queue_new`, `cc_queue_destroy`, `cc_queue_peek`, `cc_queue_poll`, `cc_queue_enqueue`,
+`cc_queue_size`, whose calls into `cc_deque.c` are calls of the *translated* deque functions of
+`Generated/FuncsDeque.lean`.  The second half of this file proves the same agreement with `Model/Queue.lean` on
+every state satisfying `Queue.Inv`, using the deque agreement theorems of `Properties/C05Gen.lean`.  Not
+translated: `destroy_cb`, `foreach` and the iterator wrappers. -/
 namespace CC.Properties.C09Gen
 open CC CC.Properties.C01Gen
 
@@ -121,5 +131,94 @@ theorem stack_pop_agrees (f : Float32) (s : Stack) (outNN : Bool) (m : Mem) (h :
 
 /-- `cc_stack_size` -/
 theorem stack_size_agrees (f : Float32) (s : Stack) : GenF.cc_stack_size (ofStack f s) = s.size := rfl
+
+/-! ## the queue (`src/cc_queue.c` over the translated `src/cc_deque.c`) -/
+
+/-- model state ↦ generated record; `hid` is the id of the header block, `sid`/`bid` those of the deque's blocks -/
+def ofQueue (q : Queue) (hid : Nat := 0) (sid : Nat := 0) (bid : Nat := 0) : GenF.cc_queue_s :=
+  { d := C05Gen.ofDeque q.d sid bid, mem_alloc := some q.triple, mem_calloc := some q.triple,
+    mem_free := some q.triple, id_ := hid }
+
+/-- `cc_queue_conf_init` is `cc_deque_conf_init` -/
+theorem queue_conf_init_agrees (u : GenF.cc_deque_conf_s) :
+    GenF.cc_queue_conf_init u = C05Gen.confOf .libc Gen.DEQUE_DEFAULT_CAPACITY := by
+  unfold GenF.cc_queue_conf_init
+  simp [C05Gen.deque_conf_init_agrees]
+
+/-- `cc_queue_new_conf`, for every triple, capacity, ledger and id supply (refusals of the header, of the deque
+header and of the deque buffer included): status code, the constructed object (header block `nid`, deque blocks
+`nid + 1`, `nid + 2`), the ledger; when the inner constructor fails the header is released again; fault-free -/
+theorem queue_new_conf_agrees (t : Triple) (cap : Nat) (m : Mem) (nid : Nat) :
+    (GenF.cc_queue_new_conf (C05Gen.confOf t cap) m nid).1 = (Queue.new cap t m).1.code ∧
+    (GenF.cc_queue_new_conf (C05Gen.confOf t cap) m nid).2.1 =
+        (Queue.new cap t m).2.1.map (fun q => ofQueue q nid (nid + 1) (nid + 2)) ∧
+    (GenF.cc_queue_new_conf (C05Gen.confOf t cap) m nid).2.2.1 = (Queue.new cap t m).2.2 ∧
+    (GenF.cc_queue_new_conf (C05Gen.confOf t cap) m nid).2.2.2.2.2 = false ∧
+    ((Queue.new cap t m).1 ≠ .ok → (m.allocT t).1 = true →
+      nid ∈ (GenF.cc_queue_new_conf (C05Gen.confOf t cap) m nid).2.2.2.2.1) := by
+  have hA := C05Gen.deque_new_conf_agrees t cap (m.allocT t).2 (nid + 1)
+  by_cases a0 : (m.allocT t).1 = true
+  · by_cases a1 : ((m.allocT t).2.allocT t).1 = true
+    · by_cases a2 : (((m.allocT t).2.allocT t).2.allocT t).1 = true
+      · simp [Deque.new, C05Gen.confOf, a1, a2, C05Gen.codes] at hA
+        simp [GenF.cc_queue_new_conf, Queue.new, Deque.new, C05Gen.confOf, a0, a1, a2, hA, codes, ofQueue,
+          GenF.isDead, GenF.cc_queue_s.zero]
+      · simp [Deque.new, C05Gen.confOf, a1, a2, C05Gen.codes] at hA
+        simp [GenF.cc_queue_new_conf, Queue.new, Deque.new, C05Gen.confOf, a0, a1, a2, hA, codes,
+          GenF.isDead, GenF.cc_queue_s.zero]
+    · simp [Deque.new, C05Gen.confOf, a1, C05Gen.codes] at hA
+      simp [GenF.cc_queue_new_conf, Queue.new, Deque.new, C05Gen.confOf, a0, a1, hA, codes, GenF.isDead,
+        GenF.cc_queue_s.zero]
+  · simp [GenF.cc_queue_new_conf, Queue.new, a0, C05Gen.confOf, codes]
+
+/-- `cc_queue_new`: whatever the uninitialised local contained, it is `cc_queue_new_conf` with the deque's default
+capacity on the C library's triple -/
+theorem queue_new_agrees (u : GenF.cc_deque_conf_s) (m : Mem) (nid : Nat) :
+    (GenF.cc_queue_new u m nid).1 = (Queue.new Gen.DEQUE_DEFAULT_CAPACITY .libc m).1.code ∧
+    (GenF.cc_queue_new u m nid).2.1 =
+        (Queue.new Gen.DEQUE_DEFAULT_CAPACITY .libc m).2.1.map (fun q => ofQueue q nid (nid + 1) (nid + 2)) ∧
+    (GenF.cc_queue_new u m nid).2.2.1 = (Queue.new Gen.DEQUE_DEFAULT_CAPACITY .libc m).2.2 ∧
+    (GenF.cc_queue_new u m nid).2.2.2.2.2 = false := by
+  obtain ⟨h1, h2, h3, h4, _⟩ := queue_new_conf_agrees .libc Gen.DEQUE_DEFAULT_CAPACITY m nid
+  unfold GenF.cc_queue_new
+  simp only [queue_conf_init_agrees]
+  simp [h1, h2, h3, h4]
+
+/-- `cc_queue_destroy`: the deque's two blocks, then the header; exactly the queue's three blocks are released -/
+theorem queue_destroy_agrees (q : Queue) (m : Mem) (hid sid bid : Nat) (h1 : sid ≠ bid) (h2 : hid ≠ sid)
+    (h3 : hid ≠ bid) :
+    GenF.cc_queue_destroy (ofQueue q hid sid bid) m = (q.destroy m, [hid, sid, bid], false) := by
+  unfold GenF.cc_queue_destroy Queue.destroy ofQueue
+  simp [C05Gen.deque_destroy_agrees q.d m sid bid h1, GenF.isDead, h2, h3]
+
+/-- `cc_queue_enqueue` is the translated `cc_deque_add_first` on the wrapped deque -/
+theorem queue_enqueue_agrees (q : Queue) (x : Nat) (m : Mem) (hid sid bid nid fuel : Nat)
+    (h : q.Inv) (hsb : sid ≠ bid) (hbn : bid ≠ nid) :
+    (GenF.cc_queue_enqueue (ofQueue q hid sid bid) x m nid fuel).1 = (q.enqueue x m).1.code ∧
+    (GenF.cc_queue_enqueue (ofQueue q hid sid bid) x m nid fuel).2.1 =
+      ofQueue (q.enqueue x m).2.1 hid sid (if q.d.size ≥ q.d.cap ∧ (q.d.expandCapacity m).1 = .ok then nid else bid) ∧
+    (GenF.cc_queue_enqueue (ofQueue q hid sid bid) x m nid fuel).2.2.1 = (q.enqueue x m).2.2 ∧
+    (GenF.cc_queue_enqueue (ofQueue q hid sid bid) x m nid fuel).2.2.2.2.2 = false := by
+  unfold GenF.cc_queue_enqueue Queue.enqueue ofQueue
+  simp [C05Gen.deque_add_first_agrees q.d x m sid bid nid fuel h.1 hsb hbn]
+
+/-- `cc_queue_peek` is the translated `cc_deque_get_last` -/
+theorem queue_peek_agrees (q : Queue) (m : Mem) (h : q.Inv) :
+    GenF.cc_queue_peek (ofQueue q) = ((q.peek m).1.code, (q.peek m).2.1, false) ∧ (q.peek m).2.2 = m := by
+  obtain ⟨g1, g2⟩ := C05Gen.deque_get_last_agrees q.d m h.1
+  unfold GenF.cc_queue_peek Queue.peek ofQueue
+  simp [g1, g2]
+
+/-- `cc_queue_poll` is the translated `cc_deque_remove_last` -/
+theorem queue_poll_agrees (q : Queue) (outNN : Bool) (m : Mem) (hid sid bid : Nat) (h : q.Inv) :
+    GenF.cc_queue_poll (ofQueue q hid sid bid) outNN =
+      ((q.poll m).1.code, (if outNN then (q.poll m).2.1 else none), ofQueue (q.poll m).2.2.1 hid sid bid, false) ∧
+    (q.poll m).2.2.2 = m := by
+  obtain ⟨g1, g2⟩ := C05Gen.deque_remove_last_agrees q.d outNN m sid bid h.1
+  unfold GenF.cc_queue_poll Queue.poll ofQueue
+  simp [g1, g2]
+
+/-- `cc_queue_size` -/
+theorem queue_size_agrees (q : Queue) : GenF.cc_queue_size (ofQueue q) = q.size := rfl
 
 end CC.Properties.C09Gen
